@@ -422,6 +422,103 @@ class IntRangeValidate(_RangeValidate):
     inline = ((None, "_validate_int"),)
 
 
+@register
+class MapValidate(PyValidator):
+    """Map.validate: accepts exactly the keys of the map (a membership test that does not raise TypeError), returns the value
+    itself, anything else is a TraitError -- the clauses of validate_trait_map on the C side (a dictionary lookup that fails or
+    raises rejects).  Which dictionary: see MapInit below."""
+    qualname = "Map.validate"
+    kind = "map"
+    c_function = "validate_trait_map"
+    assumptions = PyValidator.assumptions + ("`value in self.map` is the dictionary's lookup: found / not found / TypeError (unhashable value); other exceptions of a key's __eq__/__hash__ propagate on both sides",)
+
+    def configure(self, cx, I, ov):
+        PyValidator.configure(self, cx, I, ov)
+        self.found, self.unhashable = z3.Bool("value_is_a_key"), z3.Bool("lookup_raises_TypeError")
+
+        def contains_hook(I2, cont, item, st, k):
+            if isinstance(cont, VElem) and cont.t.eq(self.map):
+                st = st.gset("lookups", st.ghost.get("lookups", 0) + 1)
+                return I2.cx.branch(st, self.unhashable, lambda s: raise_(s, "TypeError", origin=("unhashable",)), lambda s: k(VBool(self.found), s))
+            return None
+        cx.contains_hook = contains_hook
+
+    def fields(self, cx, ov):
+        self.map = z3.Const("the_map", Val)
+        return {"map": VElem(self.map)}
+
+    def spec(self, o, cx, ov, info):
+        ok = z3.And(z3.Not(self.unhashable), self.found)
+        return [("spec:accepts-iff-key-of-the-map", o.accepted == ok),
+                ("spec:stores-the-value-itself", z3.Implies(o.accepted, o.same(o.result, o.value))),
+                ("spec:rejection-is-TraitError", z3.Implies(z3.Not(o.accepted), o.trait_error))]
+
+    def post(self, cx, I, ov, info, kind, payload, st):
+        return PyValidator.post(self, cx, I, ov, info, kind, payload, st) + [
+            ("post:exactly-one-lookup-in-the-map", z3.BoolVal(st.ghost.get("lookups", 0) == 1))]
+
+
+@register
+class MapInit(Contract):
+    """Map.__init__ -- WHICH dictionary each side consults.  The compiled validator looks the value up in the dictionary of the
+    fast_validate descriptor, the Python validate in self.map: the two agree for every history (the application may keep a
+    reference to the dictionary and change it later) only if they are THE SAME OBJECT -- the one the caller handed in.
+    CUT POINT: the statements of __init__ before the default value is worked out."""
+    path = PATH
+    qualname = "Map.__init__"
+    properties = ("C03",)
+    class_paths = (PATH,)
+    assumptions = ("A-PY", "cut point: the leading assignments of Map.__init__ (default-value selection and TraitType.__init__ are not under contract)",
+                   "ValidateTrait.map is the enum member linked to validate_trait_map by the fast_validate data lemma")
+    undecided_probe = dict(harness="pyvalidators", family="Map.__init__")
+
+    @property
+    def cid(self):
+        return "%s:%s<descriptor cut point>" % (self.path, self.qualname)
+
+    def segment(self, fn):
+        body = [s for s in fn.body if not (isinstance(s, ast.Expr) and isinstance(s.value, ast.Constant))]
+        head = []
+        for s_ in body:
+            if not isinstance(s_, (ast.Assign, ast.AnnAssign, ast.Expr)):
+                break
+            head.append(s_)
+        if not head:
+            raise Unsupported("Map.__init__ no longer starts with its attribute assignments")
+        return head
+
+    def configure(self, cx, I, ov):
+        self.map = z3.Const("map_argument", Val)
+        cx.module_globals["ValidateTrait"] = VElem(z3.Const("ValidateTrait", Val))
+        cx.elem_attrs["map"] = lambda I2, o, st, k: k(cx.const("ValidateTrait.map"), st)
+
+    def segment_env(self, cx, I, ov):
+        st = St()
+        self.self_ref = VRef(cx.new_oid())
+        st = st.put(self.self_ref.oid, HObj("obj", None, "Map", {}))
+        return st, {"self": self.self_ref, "map": VElem(self.map), "metadata": VElem(z3.Const("metadata", Val))}, dict(
+            witness={}, concretise=lambda m: dict(harness="pyvalidators", family="Map.__init__"))
+
+    def post(self, cx, I, ov, info, kind, payload, st):
+        if kind == "raise":
+            return [("exc-free", z3.BoolVal(False))]
+        f = st.heap[self.self_ref.oid].fields
+        m, fv = f.get("map"), f.get("fast_validate")
+        same_m = isinstance(m, VElem) and m.t.eq(self.map)
+        items = None
+        if isinstance(fv, VRef) and st.heap[fv.oid].kind == "tuple":
+            items = st.heap[fv.oid].payload
+        elif isinstance(fv, VTuple):
+            items = fv.items
+        ok_fv = isinstance(items, (list, tuple)) and len(items) == 2 and isinstance(items[0], VConst) and items[0].name == "ValidateTrait.map" \
+            and isinstance(items[1], VElem) and items[1].t.eq(self.map)
+        return [("post:self.map-is-the-dictionary-handed-in-(not-a-copy)", z3.BoolVal(bool(same_m))),
+                ("post:the-compiled-validator-is-given-that-same-dictionary", z3.BoolVal(bool(ok_fv)))]
+
+    def covers(self, cx, ov, info):
+        return [("assigns", lambda k, p, s: True)]
+
+
 # ------------------------------------------------------------------------------------------------------------------
 # the data lemma: the descriptor a trait type hands to the compiled core selects the compiled validator that was proved
 # against the same specification as the type's Python validate method
